@@ -33,6 +33,10 @@ ASSUMPTIONS = [
     "total/free block counters (statfs) are masked in the comparison of content models",
 ]
 
+# a failure of this property depends on the thread schedule: it is confirmed when it shows again at least once in 12 re-runs of
+# the same case (on the unchanged tree no case has ever failed once, see flaky_unconfirmed in the evidence)
+CONFIRM = (12, 1)
+
 DEPTHS = [1, 3, 4, 8, 32, 128, None]
 
 
